@@ -182,6 +182,7 @@ var current atomic.Value // string: JSON description of the call in flight
 func progress() { atomic.StoreInt64(&lastProgress, time.Now().UnixNano()) }
 
 func setCurrent(fn string, in interface{}) {
+	progress() // the clock of the watchdog runs per call
 	current.Store(callDesc{fn, in})
 	progress()
 }
